@@ -219,6 +219,23 @@ theorem source_kernels_agree (mulf : Sym → Sym) (x y : List Block) :
   · rw [avx2_ifft_partial, nosimd_ifft_partial, hi.2.1]
   · rw [neon_ifft_partial, nosimd_ifft_partial, hi.2.2]
 
+open RS.SrcK RS.RustK in
+/-- the fifth family: `Naive::mul` / `Naive::mul_add` of today's source (the exp / log kernel `tables::mul` applied to
+    the symbol made of byte `i` and byte `i + 32` of every chunk) — with the multiplier `g^m` they compute, on any
+    lists of blocks, the same bytes as the NoSimd kernels (hence as all SIMD families, `source_kernels_agree`) -/
+theorem source_naive_kernels_agree (m : Nat) (x y : List Block) :
+    let f := fun s => gmul (gexp m) s
+    Naive_mul f x = NoSimd_mul (lut16 f) x ∧ Naive_mul_add f x y = NoSimd_mul_add (lut16 f) x y := by
+  intro f
+  have hn := mulNibble_funext f (gmul_gexp_add m)
+  constructor
+  · rw [naive_mul, nosimd_mul]
+    exact List.map_congr_left fun b _ => (nosimdMulBlock_eq f (gmul_gexp_add m) b).symm
+  · rw [naive_mul_add, nosimd_mul_add]
+    have : (fun a b => blockXor a (specMulBlock f b)) = nosimdMulAdd f := by
+      funext a b; rw [nosimdMulAdd_spec, hn]
+    rw [this]
+
 open RS.SrcK in
 /-- … and with the tables of the multiplier `g^m` the translated block kernels of every family are the field
     butterflies `x' = x ⊕ g^m ⊗ y, y' = y ⊕ x'` (fft) and `y' = y ⊕ x, x' = x ⊕ g^m ⊗ y'` (ifft) on each of the
